@@ -222,6 +222,51 @@ def anytrait_harness(ex):
         _eh.pop_exception_handler()
 
 
+def equal_roots_harness(ex):
+    """two roots that compare EQUAL (value-based __eq__) observe the same expression with the same handler and share a child:
+    each registration is its own (the handler is called once per root for a change of the shared child), and each lives and dies
+    with its own root"""
+    import gc
+    errors = []
+    _eh.push_exception_handler(handler=lambda e: errors.append(e), reraise_exceptions=False)
+    try:
+        N = G.mk_node_class()
+        r1, r2 = N(name="r1", eqkey="tw"), N(name="r2", eqkey="tw")
+        child = N(name="shared")
+        expr = ["child.value", "children.items.value"][ex.choice("expr", 2)]
+        for r in (r1, r2):
+            r.child = child
+            r.children = [child]
+        calls = []
+        handler = lambda e: calls.append(e.new) if getattr(e, "name", None) == "value" else None
+        r1.observe(handler, expr)
+        r2.observe(handler, expr)
+        child.value += 1
+        ex.check(len(calls) == 2, "two roots that compare equal hold two registrations: a change of the shared child calls the handler once per root")
+        what = ex.choice("then", 3)
+        del calls[:]
+        if what == 0:
+            r1.observe(handler, expr, remove=True)
+            child.value += 1
+            ex.check(len(calls) == 1, "removing the registration of one root leaves the other root's alone")
+        elif what == 1:
+            del r1
+            gc.collect()
+            child.value += 1
+            ex.check(len(calls) == 1, "when one root is collected the other root's registration still works")
+        else:
+            other = N(name="other")
+            r1.child = other
+            r1.children = [other]
+            child.value += 1
+            other.value += 1
+            ex.check(len(calls) == 2, "each root follows its own links")
+        ex.check(errors == [], "no observer raised")
+        return {"expr": expr, "then": what}
+    finally:
+        _eh.pop_exception_handler()
+
+
 def alien_in_place_then_replace(v):
     """known-finding helper (anybox expressions; mutation indices: 0 good box, 1 broken box, 2 None, 3 append, 4 append alien):
     an object that cannot be hooked up got into an observed list IN PLACE (the append raised), later the list's owner is replaced"""
@@ -241,6 +286,9 @@ KNOWN_HELPERS = {"c08_alien_in_place_then_replace": alien_in_place_then_replace}
 
 def obligations(tier, build):
     obs = [Obligation("anytrait", anytrait_harness, bounds={"expressions": ["*", "+tag"], "history length": 3},
+                      leverage="choice feasibility only"),
+           Obligation("equal-roots", equal_roots_harness, bounds={"expressions": ["child.value", "children.items.value"],
+                                                                  "then": ["remove one registration", "collect one root", "move one root's links"]},
                       leverage="choice feasibility only")]
     K = 2 if tier == "quick" else 3
     for expr in EXPRS:
